@@ -3,17 +3,17 @@
 import json, os, sys
 V = os.path.dirname(os.path.dirname(os.path.abspath(__file__)))
 T = {
- "C01": ("exploration", "reference-model differential: abstract-spec block-copy oracle vs written .itp; -mods differential",
+ "C01": ("exploration", "reference-model differential: abstract-spec block-copy oracle vs written .itp (generated force fields and the shipped libraries as parsed); -mods differential; block exclusions kept",
          "Held on the generated force fields / residue graphs of each run (counts in evidence); the oracle is computed from the abstract spec, so the .ff/.itp parsers, MapToMolecule, ApplyLinks, ApplyModifications and the writer are all inside the checked path.",
          "vermouth writer canonicalisation (atom tuples compared up to reversal); generator bounds (<= 5 atoms per block quick, <= 8 residues)", "3 C01"),
- "C02": ("exploration", "reference-model differential: brute-force link matcher (sound + complete) vs written .itp and captured molecule",
+ "C02": ("exploration", "reference-model differential: brute-force link matcher (sound + complete) vs written .itp and captured molecule, on generated link definitions and on the shipped libraries translated from their parsed form",
          "Every generated case is decided by an independent brute-force statement of the matching rule (injective residue assignment, induced subgraph, order table, unique atom match, non-edge/pattern vetoes, last-definition-wins); both unsound and missing applications are reported.",
          "own reading of the vermouth order table; generator sub-language listed in DESIGN C02", "3 C02"),
  "C03": ("exploration", "runtime monitor on gen_coords output: expected atom rows from the spec, NaN/inf watcher, box oracle",
          "Held on the systems/option sets generated per run.", ".gro fixed-width format is lossless for generated names", "3 C03"),
- "C04": ("exploration", "shadow of supplied coordinates at the engine boundary after every (natural or injected) failed attempt; input/output .gro differential",
+ "C04": ("exploration", "shadow of supplied coordinates at the engine boundary after every (natural or injected) failed attempt; input (.gro/.pdb, -c/-mc/-lig) vs output differential",
          "Held on generated splits given/centre-only/missing incl. injected failed attempts.", "3-decimal .gro rounding", "3 C04"),
- "C05": ("exploration", "online invariant at a hook: brute-force minimum-image geometry/force at every accepted placement",
+ "C05": ("exploration", "online invariant at a hook: brute-force minimum-image geometry/force at every accepted placement, limits taken from the call",
          "Every accepted placement of every run is re-checked independently of the KD-tree.", "sizes from captured topology.volumes", "3 C05"),
  "C06": ("exploration", "Kabsch + chirality monitor on every back-mapped residue; adversarial optimiser angles",
          "Held on all residues back-mapped in the generated systems.", "atom names unique per residue", "3 C06"),
@@ -23,17 +23,17 @@ T = {
          "Held on generated include trees.", "generator restrictions listed in DESIGN C08", "3 C08"),
  "C09": ("exploration", "reference resolver for bonded types per molecule instance; nonbond table laws",
          "Held on generated type tables (all 16 wildcard masks, both directions).", "combination rule itself not checked", "3 C09"),
- "C10": ("exploration", "recount of inter-residue atom edges vs logged missing-link warnings; gen_coords connectivity gate",
+ "C10": ("exploration", "recount of inter-residue atom edges vs logged missing-link warnings (generated, library and -dsdna inputs); gen_coords connectivity gate with and without start coordinates",
          "Held on generated force fields with links randomly withheld.", "residue-graph edges from the generated input", "3 C10"),
- "C11": ("exploration", "round trip: built molecule (captured at stage boundary) vs re-read file via Topology.from_gmx_topfile / MetaMolecule.from_itp",
+ "C11": ("exploration", "round trip: built molecule (captured at stage boundary) vs re-read file via Topology.from_gmx_topfile / MetaMolecule.from_itp; requested vs recovered residue graph for generated and library sequences",
          "Held on generated inputs incl. conditional sections and libraries.", "float fields compared after str/float round trip", "3 C11"),
  "C12": ("exploration", "reference sequence-graph builder vs all sequence readers and gen_seq",
          "Held on generated sequences/files/macros.", "quantifier restrictions of the statement (.txt single space etc.)", "3 C12"),
  "C13": ("exploration", "metamorphic differential on the real program: relabel/permute/reverse/history transforms",
          "Held on generated base cases x transforms.", "non-conflicting permutations only", "3 C13"),
- "C14": ("exploration", "all-pairs exclusion recount on the written .itp",
+ "C14": ("exploration", "all-pairs exclusion recount on the written .itp (generated mixed-distance polymers and library sequences)",
          "Held on generated mixed-exclusion polymers.", "bond graph = bonds + constraints + link-made bond edges", "3 C14"),
- "C15": ("exploration", "monitors on GenerateTemplates: isomorphism grouping, centring, GROMACS virtual-site formulas, optimiser verdict recheck, user templates/volumes",
+ "C15": ("exploration", "monitors on GenerateTemplates: isomorphism grouping, centring, GROMACS virtual-site formulas (nested and stacked sites), optimiser verdicts and the generator's own failure report rechecked, user templates/volumes",
          "Held on generated residue definitions.", "networkx is_isomorphic trusted", "3 C15"),
  "C16": ("exploration", "history vs executable model: dictionary model + view invariant on the real NonBondEngine",
          "Operation histories driven on the real engine and checked after every operation.", "brute-force minimum image force", "3 C16"),
@@ -43,7 +43,7 @@ T = {
          "Held on generated build files and option strings.", "", "3 C18"),
  "C19": ("exploration", "reference pairing/antiparallel oracle, involution law",
          "Held on generated DNA sequences.", "", "3 C19"),
- "C20": ("fault_enumeration", "failpoints at every statement of the three programs and every stage boundary; directory snapshots",
+ "C20": ("fault_enumeration", "failpoints at every statement of the three programs and every stage boundary; directory snapshots after the failed call and after the next flush of the deferred writer; SIGKILL of the command line programs",
          "Every LINE event of gen_params/gen_coords/gen_seq bodies and every stage entry/exit is a crash point; enumeration is measured.", "in-process exception models a crash; DeferredFileWriter().close() models process exit", "3 C20"),
 }
 checks, na = [], []
